@@ -173,7 +173,15 @@ pub struct ScenarioOutcome {
     pub trace_hashes: Vec<u64>,
 }
 
+/// what the worker is executing right now (for the hang watchdog)
+pub static CURRENT: std::sync::Mutex<Option<(String, Vec<u16>)>> = std::sync::Mutex::new(None);
+pub static HEARTBEAT: std::sync::atomic::AtomicU64 = std::sync::atomic::AtomicU64::new(0);
+
 pub fn run_schedule(scn: &Arc<Scenario>, schedule: &[u16]) -> (ExecResult, bool) {
+    if let Ok(mut c) = CURRENT.lock() {
+        *c = Some((serde_json::to_string(&**scn).unwrap_or_default(), schedule.to_vec()));
+    }
+    HEARTBEAT.fetch_add(1, std::sync::atomic::Ordering::SeqCst);
     let mut ch = Replay { prefix: schedule, pos: 0, diverged: false };
     let r = run_one(scn, &mut ch);
     (r, ch.diverged)
@@ -236,12 +244,23 @@ pub fn explore_scenario(
                 "trace": ct.iter().map(crate::render).collect::<Vec<_>>(),
             }));
         }
-        let v = monitor(scn, &ct);
+        let mut v = monitor(scn, &ct);
         stats.premises += crate::mon::take_premises();
+        if ct.iter().any(|e| matches!(e.k, EvK::Livelock { .. })) {
+            v.push(Violation {
+                clause: "no livelock".into(),
+                detail: format!("hook code was polled more than {} times without the runtime ever becoming idle: a loop of the code under test spins", crate::msched::POLL_LIMIT),
+            });
+        }
+        let mut v = v;
         if !v.is_empty() {
             // replay twice, each time in a fresh process (process-wide statics of rsactor may have been damaged
             // by the very defect that is being reported): a violation must reproduce identically before it is reported
             let same = fresh_replay_hash(scn, &chosen) == Some(h) && fresh_replay_hash(scn, &chosen) == Some(h);
+            // keep the artefact readable: the first violations and the first events are enough to understand it
+            v.truncate(8);
+            let mut ct = ct;
+            ct.truncate(600);
             found = Some(Found {
                 scenario: (**scn).clone(),
                 schedule: chosen,
